@@ -32,6 +32,12 @@ func init() {
 			st("encryption", "pkg/registrars/dns-registrar/encryption", "^TestVerifC15"),
 			st("requester", "pkg/registrars/dns-registrar/requester", "^TestVerifC15"),
 			st("responder", "pkg/registrars/dns-registrar/responder", "^TestVerifC15"),
+			{Name: "responder-race", Pkg: "./pkg/registrars/dns-registrar/responder", Run: "^TestVerifC15ExchangeConcurrent$", Drivers: []string{"responder"},
+				Race: true, TimeoutQ: 10 * time.Minute, TimeoutT: 40 * time.Minute,
+				// only races inside the registrar's own packages are charged to this property
+				RaceFilter: func(r RaceReport) bool {
+					return r.Has("dns-registrar/responder", "dns-registrar/requester", "dns-registrar/dns", "dns-registrar/msgformat")
+				}},
 		},
 		Post: c15Post,
 	})
@@ -51,6 +57,7 @@ func c15Post(rc *RunCtx) {
 		"encryption.accepted_roundtrips":  300,
 		"requester.accepted_roundtrips":   200,
 		"exchange.accepted_roundtrips":    150,
+		"concurrent.accepted_roundtrips":  300,
 	}
 	for k, min := range floors {
 		if got := rc.Counts[k]; got < min {
